@@ -8,6 +8,8 @@ import (
 	"os"
 	"os/exec"
 	"path/filepath"
+	"strconv"
+	"strings"
 	"sync"
 	"time"
 )
@@ -178,18 +180,19 @@ func (w *Worker) Taint(files map[string]string, configYAML string, budget time.D
 		w.stop()
 		return nil, false, fmt.Errorf("worker write: %w", err)
 	}
-	type res struct {
-		line []byte
-		err  error
-	}
-	ch := make(chan res, 1)
+	ch := make(chan workerLine, 1)
 	rd := w.out
 	go func() {
 		line, err := rd.ReadBytes('\n')
-		ch <- res{line, err}
+		ch <- workerLine{line, err}
 	}()
-	select {
-	case r := <-ch:
+	r, over := awaitWithinCPUBudget(ch, w.cmd.Process.Pid, budget)
+	if over {
+		w.Kills++
+		w.stop()
+		return nil, true, nil
+	}
+	{
 		if r.err != nil {
 			time.Sleep(50 * time.Millisecond)
 			tail := w.stderr.String()
@@ -212,10 +215,6 @@ func (w *Worker) Taint(files map[string]string, configYAML string, budget time.D
 			o.Err = fmt.Errorf("%s", resp.Err)
 		}
 		return o, false, nil
-	case <-time.After(budget):
-		w.Kills++
-		w.stop()
-		return nil, true, nil
 	}
 }
 
@@ -234,33 +233,88 @@ func (w *Worker) All(files map[string]string, only string, budget time.Duration)
 		w.stop()
 		return nil, false, fmt.Errorf("worker write: %w", err)
 	}
-	type res struct {
-		line []byte
-		err  error
-	}
-	ch := make(chan res, 1)
+	ch := make(chan workerLine, 1)
 	rd := w.out
 	go func() {
 		line, err := rd.ReadBytes('\n')
-		ch <- res{line, err}
+		ch <- workerLine{line, err}
 	}()
-	select {
-	case r := <-ch:
-		if r.err != nil {
-			time.Sleep(50 * time.Millisecond)
-			tail := w.stderr.String()
-			w.stop()
-			return nil, false, &ErrWorkerDied{Stderr: tail}
-		}
-		var resp workerResp
-		if e := json.Unmarshal(r.line, &resp); e != nil {
-			w.stop()
-			return nil, false, fmt.Errorf("worker protocol: %w", e)
-		}
-		return resp.Steps, false, nil
-	case <-time.After(budget):
+	r, over := awaitWithinCPUBudget(ch, w.cmd.Process.Pid, budget)
+	if over {
 		w.Kills++
 		w.stop()
 		return nil, true, nil
+	}
+	if r.err != nil {
+		time.Sleep(50 * time.Millisecond)
+		tail := w.stderr.String()
+		w.stop()
+		return nil, false, &ErrWorkerDied{Stderr: tail}
+	}
+	var resp workerResp
+	if e := json.Unmarshal(r.line, &resp); e != nil {
+		w.stop()
+		return nil, false, fmt.Errorf("worker protocol: %w", e)
+	}
+	return resp.Steps, false, nil
+}
+
+type workerLine struct {
+	line []byte
+	err  error
+}
+
+// processCPU returns the CPU time (user + system) consumed so far by the process, read from /proc.
+func processCPU(pid int) (time.Duration, bool) {
+	b, err := os.ReadFile(fmt.Sprintf("/proc/%d/stat", pid))
+	if err != nil {
+		return 0, false
+	}
+	// the command name (field 2) may contain spaces: fields are counted after the closing parenthesis
+	s := string(b)
+	i := strings.LastIndexByte(s, ')')
+	if i < 0 {
+		return 0, false
+	}
+	f := strings.Fields(s[i+1:])
+	if len(f) < 13 {
+		return 0, false
+	}
+	ut, e1 := strconv.ParseInt(f[11], 10, 64)
+	st, e2 := strconv.ParseInt(f[12], 10, 64)
+	if e1 != nil || e2 != nil {
+		return 0, false
+	}
+	return time.Duration(ut+st) * (time.Second / 100), true // USER_HZ is 100 on Linux
+}
+
+// awaitWithinCPUBudget waits for the child's answer. The budget is counted in CPU time of the child, so that a loaded
+// machine does not turn a terminating analysis into an over-budget one; a wall-clock cap of 20 budgets (at least two
+// minutes) remains as a backstop against a child that is blocked without consuming CPU.
+func awaitWithinCPUBudget(ch chan workerLine, pid int, budget time.Duration) (workerLine, bool) {
+	start := time.Now()
+	cpu0, ok0 := processCPU(pid)
+	wallCap := 20 * budget
+	if wallCap < 2*time.Minute {
+		wallCap = 2 * time.Minute
+	}
+	tick := time.NewTicker(100 * time.Millisecond)
+	defer tick.Stop()
+	for {
+		select {
+		case r := <-ch:
+			return r, false
+		case <-tick.C:
+			if cpu, ok := processCPU(pid); ok && ok0 {
+				if cpu-cpu0 > budget {
+					return workerLine{}, true
+				}
+			} else if time.Since(start) > budget {
+				return workerLine{}, true // no /proc: wall clock
+			}
+			if time.Since(start) > wallCap {
+				return workerLine{}, true
+			}
+		}
 	}
 }
